@@ -351,6 +351,14 @@ func (m *svcModel) Reset() {
 	}
 	m.ref = map[string]ent{}
 	m.last = ""
+	// virtual time only moves forward over all the histories a worker replays: renew the
+	// leadership long before the (very long) lease runs out
+	if ls := m.s.VerifMember().GetLeadership(); ls.VerifLeaseExpireTime().Sub(vclock.Base()) < 100000*time.Second {
+		m.s.VerifStepDown()
+		if err := m.s.VerifBecomeLeader(); err != nil {
+			panic("harness: cannot renew the leadership: " + err.Error())
+		}
+	}
 	// start every history on a fresh second so that relative expiry is reproducible
 	vclock.Advance(time.Duration(1e9-int64(vclock.Base().Nanosecond())) + 100*time.Second)
 	m.s.GetTSOAllocatorManager().VerifAllocatorUpdaterSync()
